@@ -1,4 +1,4 @@
-"""power-of-two test of ppm.HDD / ppm.SDD and the loop of utils.dec2bin  ->  Gen/Ppm.lean   (C12)"""
+"""order test (`M < 1 or not M & (M-1) == 0`) of ppm.HDD / ppm.SDD and the loop of utils.dec2bin  ->  Gen/Ppm.lean   (C12)"""
 import ast
 from extract import AnchorMissing, parse, find_def, int_expr, HEADER
 
@@ -6,22 +6,33 @@ NAME = "Ppm"
 
 
 def _pow2_test(fn):
-    """the expression E of the statement  `if not E == 0: raise ValueError(...)`  (E is an integer expression in M)"""
+    """(K, E) of the statement  `if M < K or not E == 0: raise ValueError(...)`
+    (K an integer literal, E an integer expression in M)"""
     for node in ast.walk(fn):
-        if isinstance(node, ast.If) and isinstance(node.test, ast.UnaryOp) and isinstance(node.test.op, ast.Not):
-            c = node.test.operand
-            if (isinstance(c, ast.Compare) and len(c.ops) == 1 and isinstance(c.ops[0], ast.Eq)
-                    and isinstance(c.comparators[0], ast.Constant) and c.comparators[0].value == 0
-                    and len(node.body) == 1 and isinstance(node.body[0], ast.Raise)
-                    and "ValueError" in ast.unparse(node.body[0])):
-                return int_expr(c.left, {"M"})
-    raise AnchorMissing(f"power-of-two test of {fn.name}")
+        if not (isinstance(node, ast.If) and len(node.body) == 1 and isinstance(node.body[0], ast.Raise)
+                and "ValueError" in ast.unparse(node.body[0])):
+            continue
+        t = node.test
+        if not (isinstance(t, ast.BoolOp) and isinstance(t.op, ast.Or) and len(t.values) == 2):
+            continue
+        lo, nt = t.values
+        if not (isinstance(lo, ast.Compare) and len(lo.ops) == 1 and isinstance(lo.ops[0], ast.Lt)
+                and ast.unparse(lo.left) == "M" and isinstance(lo.comparators[0], ast.Constant)
+                and isinstance(lo.comparators[0].value, int) and not isinstance(lo.comparators[0].value, bool)):
+            continue
+        if not (isinstance(nt, ast.UnaryOp) and isinstance(nt.op, ast.Not)):
+            continue
+        c = nt.operand
+        if (isinstance(c, ast.Compare) and len(c.ops) == 1 and isinstance(c.ops[0], ast.Eq)
+                and isinstance(c.comparators[0], ast.Constant) and c.comparators[0].value == 0):
+            return lo.comparators[0].value, int_expr(c.left, {"M"})
+    raise AnchorMissing(f"`if M < K or not E == 0: raise ValueError` in {fn.name}")
 
 
 def generate(repo):
     tree, _ = parse(repo, "opticomlib/ppm.py")
-    hdd = _pow2_test(find_def(tree, "HDD"))
-    sdd = _pow2_test(find_def(tree, "SDD"))
+    hmin, hdd = _pow2_test(find_def(tree, "HDD"))
+    smin, sdd = _pow2_test(find_def(tree, "SDD"))
     utree, _ = parse(repo, "opticomlib/utils.py")
     fn = find_def(utree, "dec2bin")
     # if num > LIMIT: raise ValueError
@@ -53,11 +64,15 @@ def generate(repo):
         raise AnchorMissing("i = digits - 1")
     return HEADER + f"""namespace OptiVerif.Gen.Ppm
 
-/-- `E` of `if not E == 0: raise ValueError` in `ppm.HDD` (natural `M`; Python's `M-1` at `M = 0` is -1 and `0 & -1 = 0`,
-    the truncated subtraction gives `0 &&& 0 = 0` as well) -/
+/-- `K` of `if M < K or not E == 0: raise ValueError` in `ppm.HDD` -/
+def pow2MinHDD : Int := {hmin}
+
+/-- `E` of that statement (evaluated only for `M ≥ K`; natural `M`) -/
 def pow2ExprHDD (M : Nat) : Nat := {hdd}
 
 /-- the same test in `ppm.SDD` -/
+def pow2MinSDD : Int := {smin}
+
 def pow2ExprSDD (M : Nat) : Nat := {sdd}
 
 /-- `utils.dec2bin`: `if num > LIMIT: raise ValueError` -/
